@@ -95,6 +95,11 @@ func eventWork(evs []model.Ev) (n int, strBytes int) {
 
 func checkC14(ci any, info *CaseInfo) string {
 	c := ci.(*C14Case)
+	if len(c.Kind) > 9 && c.Kind[:9] == "scenario:" {
+		info.Class("scenario")
+		info.NonTrivial = true
+		return unfoldScenario(c.Kind[9:])
+	}
 	typ, err := gomodel.Build(&c.Type)
 	if err != nil {
 		return err.Error()
@@ -470,6 +475,11 @@ func drawC14(t *rapid.T) any {
 // element types in five positions. The reference model decides which of them
 // are mismatches (null is not).
 func enumC14(emit func(c any) bool) {
+	for _, sc := range unfoldScenarios {
+		if !emit(&C14Case{Type: gomodel.TypeDesc{Kind: "int"}, Abandon: -1, Kind: "scenario:" + sc}) {
+			return
+		}
+	}
 	sInt := gomodel.TypeDesc{Kind: "struct", Fields: []gomodel.FieldDesc{{Name: "A", Type: gomodel.TypeDesc{Kind: "int"}}}}
 	elems := []gomodel.TypeDesc{
 		sInt,
